@@ -6,6 +6,7 @@ import (
 	"strings"
 
 	"grol.io/grol/eval"
+	"grol.io/grol/object"
 	"grol.io/grol/lexer"
 	"grol.io/grol/parser"
 )
@@ -40,8 +41,8 @@ func regRewriteRun(input string) string {
 	var isInt []bool
 	if parts[2] != "" {
 		for _, ni := range strings.Split(parts[2], ",") {
-			p := strings.SplitN(ni, ":", 2)
-			if len(p) != 2 {
+			p := strings.Split(ni, ":") // <hex name>:<isInt>[:<isExt>] (isExt is for the model: the code looks the name up itself)
+			if len(p) != 2 && len(p) != 3 {
 				return "BAD"
 			}
 			names = append(names, unhx(p[0]))
@@ -108,7 +109,8 @@ var regShapes = []string{
 var identRe = regexp.MustCompile(`[A-Za-z_][A-Za-z0-9_]*`)
 
 func regNames(r *rng, text string) string {
-	cands := []string{"x", "i", "n", "ab", "p0", "j", "k", "s", "a", "m", "f", "y", "N", "LIM", "A1", "", "self", "info", "é"}
+	// "max", "int", "min": names of registered extension functions (reserved names, like self and info: never a register)
+	cands := []string{"x", "i", "n", "ab", "p0", "j", "k", "s", "a", "m", "f", "y", "N", "LIM", "A1", "", "self", "info", "é", "max", "int", "min", "self", "max"}
 	if ids := identRe.FindAllString(text, -1); len(ids) > 0 {
 		for k := 0; k < 4; k++ {
 			cands = append(cands, ids[r.intn(len(ids))])
@@ -131,7 +133,9 @@ func regNames(r *rng, text string) string {
 		if r.intn(8) == 0 {
 			isInt = "0"
 		}
-		l = append(l, hx(cands[r.intn(len(cands))])+":"+isInt)
+		name := cands[r.intn(len(cands))]
+		initExtensions()
+		l = append(l, hx(name)+":"+isInt+":"+b2s(object.IsExtraFunction(name)))
 	}
 	return strings.Join(l, ",")
 }
